@@ -9,7 +9,8 @@ from __future__ import annotations
 
 import ast
 
-from ..astutil import calls_in, dotted, kwarg, src, walk_local
+from ..astutil import calls_in, dotted, enclosing_stmt, kwarg, src, walk_local
+from ..cfg import cfg_of, deref_at
 from ..loader import AnalysisError
 from ..terms import Evaluator, alts, contains, find, show, strip_sites, walk
 from .common import func_label, loc
@@ -361,11 +362,61 @@ def r4_encoders(ctx):
         )
 
 
+def r5_only_signed_requests_leave(ctx):
+    """Every request that reaches the service was built - and therefore signed - by _prepare_request.  The HTTP client
+    must not manufacture requests of its own: following redirects (httpx re-issues the request to the new URL with the
+    OLD signature, or without the authorization header on another host), client-level auth, or verb helpers
+    (client.get / post ..) bypass the signer."""
+    corpus = ctx.corpus
+    s3 = corpus.cls('s3c', 'S3Compatible')
+    n = 0
+    for m in s3.methods.values():
+        for c in calls_in(m.node):
+            d = dotted(c.func) or ''
+            if d.endswith(('AsyncClient', 'Client')) and d.startswith('httpx'):
+                n += 1
+                ctx.analysed(m)
+                fr = kwarg(c, 'follow_redirects')
+                au = kwarg(c, 'auth')
+                bad = (fr is not None and not (isinstance(fr, ast.Constant) and not fr.value)) or (au is not None and not (isinstance(au, ast.Constant) and au.value is None))
+                ctx.check(
+                    not bad,
+                    'C16.R5',
+                    f'{func_label(m)}|client-sends-only-what-it-is-given',
+                    loc(m, c),
+                    'the HTTP client is created without follow_redirects / auth: it sends exactly the signed requests it is handed',
+                    f'the HTTP client is created with `{src(fr if fr is not None else au, 40)}`: on a 3xx answer httpx builds the follow-up request itself - same-origin with the signature of the OLD path, cross-origin without the '
+                    'authorization header: a request that was never signed for what it asks reaches the service',
+                )
+            if d.startswith('self._client.'):
+                n += 1
+                verb = d.rsplit('.', 1)[1]
+                if verb in ('send', 'build_request', 'aclose'):
+                    fr = kwarg(c, 'follow_redirects')
+                    ok = fr is None or (isinstance(fr, ast.Constant) and not fr.value)
+                    if verb == 'send':
+                        arg = c.args[0] if c.args else None
+                        dv = deref_at(m.node, arg) if isinstance(arg, ast.Name) else arg
+                        ok = ok and dv is not None and any(isinstance(x, ast.Call) and (dotted(x.func) or '').endswith('_prepare_request') for x in ast.walk(dv))
+                    ctx.check(ok, 'C16.R5', f'{func_label(m)}|sent-request-comes-from-the-signer:{verb}', loc(m, c), f'{m.name}: `{src(c, 50)}` sends the request built by _prepare_request, redirects not followed', f'{m.name}: `{src(c, 60)}` sends a request that does not come from _prepare_request (or follows redirects)')
+                else:
+                    ctx.fail('C16.R5', f'{func_label(m)}|no-verb-helpers:{verb}', loc(m, c), f'{m.name}: `{src(c, 60)}` lets the client build and send a request that bypasses the signer')
+    ctx.floor('C16.R5', 'client construction and send sites', n, 3)
+    # the response hook must not turn redirect answers into silent successes
+    hooks = [f for f in corpus.module('s3c').functions.values() if any(isinstance(c.func, ast.Attribute) and c.func.attr == 'raise_for_status' for c in calls_in(f.node))]
+    for h in hooks:
+        cfg = cfg_of(h.node)
+        rs = [x for c in calls_in(h.node) if isinstance(c.func, ast.Attribute) and c.func.attr == 'raise_for_status' for x in cfg.nodes_of(enclosing_stmt(c), 'stmt')]
+        bypass = cfg.path(cfg.entry, [cfg.exit], avoid=rs, kinds=('normal',))
+        ctx.check(bypass is None, 'C16.R5', f'{func_label(h)}|every-answer-is-status-checked', loc(h, h.node), f'{h.name}: every response passes raise_for_status', f'{h.name}: some responses (e.g. redirects) skip raise_for_status: a 3xx answer is treated as success / followed')
+
+
 def run(ctx):
     r1_same_origin(ctx)
     r2_payload_sites(ctx)
     r3_structure(ctx)
     r4_encoders(ctx)
+    r5_only_signed_requests_leave(ctx)
     from .c12 import r2_rewind
 
     r2_rewind(ctx, rule='C16.R2', only={'S3Compatible'}, floor=2)
